@@ -25,6 +25,34 @@ def exprs_of(node):
         for fld in ("multiplier", "initial_term", "difference", "ratio"):
             if hasattr(seq, fld):
                 yield f"sequence {fld}", getattr(seq, fld)
+        # closed-form / custom sequences: the placeholder (num_terms_symbol / iterator) is a bound name of the field, every other
+        # symbol must be a top-level input like anywhere else
+        for fld, bound in (("sum", "num_terms_symbol"), ("prod", "num_terms_symbol"), ("term_expression", "iterator_symbol")):
+            v = getattr(seq, fld, None)
+            if v is not None and not isinstance(v, (int, float)):
+                import sympy
+
+                b = getattr(seq, bound, None)
+                yield f"sequence {fld}", (v.subs(b, sympy.Integer(1)) if b is not None else v)
+
+
+def model_hypothesis(case, res, root_inputs):
+    """hypothesis of C04_hierarchy_closed_partial, evaluated by the model on this very routine: is the bottom-up reading of the
+    preprocessed routine defined everywhere when exactly the compiled top-level inputs are given?  The real compiled hierarchy
+    has just been found closed over them, so `undefined` would mean the theorem's hypothesis is stronger than what the code needs."""
+    from .. import model
+
+    if case.sexp is None:
+        return
+    r = model.run_driver(["wellscoped 0 " + case.sexp + " (" + " ".join(sorted(root_inputs)) + ")"])[0]
+    res.stats["model_vs_impl_compared"] += 1
+    if r[0] != "ok":
+        res.disagreement("semantic well-scopedness (hypothesis of C04_hierarchy_closed_partial): model outcome", {"qref": case.qref}, str(r)[:200], "ok")
+        return
+    res.stats["wellscoped_" + str(r[1])] += 1
+    res.stats["wellscoped_" + str(r[2])] += 1
+    if r[1] != "defined":
+        res.disagreement("semantic well-scopedness holds on a routine whose compiled hierarchy is closed", {"qref": case.qref, "G": sorted(root_inputs)}, r[1], "defined")
 
 
 def oracle(case, res, extra):
@@ -62,6 +90,7 @@ def oracle(case, res, extra):
                 if "#" in s and not (s.startswith("#") and s in tops):
                     res.violation("failing-input", f"port variable {s} survives in {what} of {where}", {"qref": case.qref}, str(e), None)
                     return
+    model_hypothesis(case, res, root_inputs)
     extra_inputs = root_inputs - tops
     if extra_inputs:
         res.violation("failing-input", f"top-level inputs {sorted(extra_inputs)} are neither root parameters, unlinked parameters by path, nor unsized root ports",
